@@ -161,8 +161,8 @@ func initConverter(loader *pkgload.PackageLoader, rawConverter *RawConverter) (*
 		}
 
 		c.typ = interfaceObj.Type()
-		if named, ok := c.typ.(*types.Named); ok && named.TypeParams().Len() > 0 {
-			return nil, fmt.Errorf("%s\n    %s.%s\n\nGeneric converter interfaces are not supported.", c.Location, c.Package, rawConverter.InterfaceName)
+		if usesTypeParam(c.typ.Underlying(), map[types.Type]struct{}{}) {
+			return nil, fmt.Errorf("%s\n    %s.%s\n\nGeneric converter interfaces are not supported: a method signature refers to a type parameter.", c.Location, c.Package, rawConverter.InterfaceName)
 		}
 		c.Name = rawConverter.InterfaceName + "Impl"
 		return c, nil
@@ -173,6 +173,59 @@ func initConverter(loader *pkgload.PackageLoader, rawConverter *RawConverter) (*
 	c.OutputPackageName = rawConverter.PackageName
 	c.OutputPackagePath = rawConverter.PackagePath
 	return c, nil
+}
+
+// usesTypeParam reports whether t refers to a type parameter.
+func usesTypeParam(t types.Type, seen map[types.Type]struct{}) bool {
+	if _, ok := seen[t]; ok {
+		return false
+	}
+	seen[t] = struct{}{}
+	switch cast := types.Unalias(t).(type) {
+	case *types.TypeParam:
+		return true
+	case *types.Named:
+		for i := 0; i < cast.TypeArgs().Len(); i++ {
+			if usesTypeParam(cast.TypeArgs().At(i), seen) {
+				return true
+			}
+		}
+		return false
+	case *types.Pointer:
+		return usesTypeParam(cast.Elem(), seen)
+	case *types.Slice:
+		return usesTypeParam(cast.Elem(), seen)
+	case *types.Array:
+		return usesTypeParam(cast.Elem(), seen)
+	case *types.Chan:
+		return usesTypeParam(cast.Elem(), seen)
+	case *types.Map:
+		return usesTypeParam(cast.Key(), seen) || usesTypeParam(cast.Elem(), seen)
+	case *types.Tuple:
+		for i := 0; i < cast.Len(); i++ {
+			if usesTypeParam(cast.At(i).Type(), seen) {
+				return true
+			}
+		}
+		return false
+	case *types.Signature:
+		return usesTypeParam(cast.Params(), seen) || usesTypeParam(cast.Results(), seen)
+	case *types.Struct:
+		for i := 0; i < cast.NumFields(); i++ {
+			if usesTypeParam(cast.Field(i).Type(), seen) {
+				return true
+			}
+		}
+		return false
+	case *types.Interface:
+		for i := 0; i < cast.NumMethods(); i++ {
+			if usesTypeParam(cast.Method(i).Type(), seen) {
+				return true
+			}
+		}
+		return false
+	}
+	return false
 }
 
 func parseConverterLines(ctx *context, c *Converter, source string, raw RawLines) error {
